@@ -395,6 +395,15 @@ impl Bitstr {
     }
 
     fn append_bits_mut(mut self, tail: &Bitstr) -> Bitstr {
+        // the buffer may be longer than this value and may hold stale bits
+        // after its end (a uniquely owned slice): cut it back before appending
+        let end = self.range.end;
+        let used = upper_bound_index(end);
+        let data = self.data_mut();
+        data.truncate(used);
+        if end % 8 > 0 {
+            data[used - 1] &= 0xffu8 << (8 - end % 8);
+        }
         if self.is_u8_slice() && tail.is_u8_slice() {
             self.data_mut().extend_from_slice(tail.slice().unwrap());
             self.range.end = self.range.end + tail.len();
